@@ -58,6 +58,16 @@ PROPS = {
         "modelled": COMMON_MODELLED,
         "assumptions": ["Marshal-into is covered through Push (C16 check exercises Marshal into initialised receivers)"],
     },
+    "C12": {
+        "lean": ["Stackage.Props.C12"],
+        "streams": [{"name": "alias", "quick": 3000, "thorough": 60000}],
+        "rule": "random trees (depth 1-2 quick, 1-4 thorough) in which every nested Stack and every Condition (also as a Condition's expression) is independently "
+                "native / alias / alias with its own String / non-nil pointer to alias; the alias tree and its all-native twin are both built with the real code and "
+                "observed: String, Unmarshal, IsNesting, Traverse over 9 paths, Condition.Len/IsNesting, no-nesting Push count, Transfer, IsEqual in both directions, "
+                "ConvertStack/ConvertCondition per element; the two observations must coincide and equal the model's",
+        "modelled": COMMON_MODELLED,
+        "assumptions": ["IsEqual across forms is compared on the implementation only until the equality model (C05) is merged; Defrag across forms is covered by C19"],
+    },
     "C13": {
         "lean": ["Stackage.Props.C13"],
         "streams": [{"name": "nest", "quick": 3000, "thorough": 60000}],
@@ -188,6 +198,8 @@ def nontrivial(pid, payload):
     kinds = {o.split(" ")[0] for o in ops if o}
     if pid == "C15":
         return " [ ]" not in payload.split(" | ")[0]     # non-empty source
+    if pid == "C12":
+        return any(f in payload for f in (" a ", " as ", " p "))
     if pid == "C07":
         return any(len(o.split(" ")) >= 3 for o in ops)
     if pid == "C02":
